@@ -25,6 +25,8 @@ impl<'a> BerDecoder<'a> for SnmpReal {
         if h.is_empty() {
             return Ok(SnmpReal(0.0));
         }
+        // Only the declared contents belong to this value
+        let i = &i[..h.length];
         // 8.5.6: Check encoding
         Ok(SnmpReal(match i[0] {
             f if f & 0x80 == 0x80 => {
